@@ -279,15 +279,27 @@ def r05_2(ctx, u, rid: str = "R05.2") -> None:
                callables=sorted({s.split(":")[-1] for v in ucalls.values() for s in v}))
 
 
+def refill_holder(n: Node, puller: str) -> Optional[str]:
+    """``await holder.<puller>()`` or, when the pulling step is a module-level coroutine, ``await <puller>(holder)``:
+    the text of the holder expression, else None"""
+    call = n.info.get("value") if n.kind == "await" else None
+    if not isinstance(call, ast.Call):
+        return None
+    if isinstance(call.func, ast.Attribute) and call.func.attr == puller and not call.args:
+        return norm(call.func.value)
+    if norm(call.func).split(".")[-1] == puller and len(call.args) == 1 and not isinstance(call.func, ast.Attribute):
+        return norm(call.args[0])
+    return None
+
+
 def r05_3(ctx) -> None:
     u = ctx.unit("heapq.merge")
     cfg = cfg_of(u)
     puller = c01.holder_roles(ctx)["puller"].node.name
-    refills = [n for n in cfg.nodes if n.kind == "await" and not n.tag and f".{puller}(" in norm(n.ast)]
+    refills = [n for n in cfg.nodes if n.kind == "await" and not n.tag and refill_holder(n, puller) is not None]
     ctx.check(bool(refills), "R05.3", u, "merge", f"merge refills holders through the holder's pulling method ({puller})")
     for r in refills:
-        call = r.info.get("value")
-        holder = norm(call.func.value) if isinstance(call, ast.Call) and isinstance(call.func, ast.Attribute) else None
+        holder = refill_holder(r, puller)
         if holder is None:
             ctx.fail("R05.3", u, r, "refill is not a method call on a holder", node=r)
             continue
@@ -301,7 +313,7 @@ def r05_3(ctx) -> None:
     f = ctx.unit("heapq._KeyIter.from_iters")
     fcfg = cfg_of(f)
     # (a head is taken by a direct pull or by the holder's own pulling method on a fresh holder)
-    pulls = pull_nodes(ctx, f) + [n for n in fcfg.nodes if n.kind == "await" and not n.tag and f".{puller}(" in norm(n.ast)]
+    pulls = pull_nodes(ctx, f) + [n for n in fcfg.nodes if n.kind == "await" and not n.tag and refill_holder(n, puller) is not None]
     loops = [n for n in fcfg.nodes if n.kind == "snext" and not n.tag]
     ok = len(pulls) == 1 and len(loops) == 1 and pulls[0].in_region("loop", loops[0].ast) and not any(
         k == "loop" and a is not loops[0].ast for (k, a) in pulls[0].regions)
@@ -323,7 +335,7 @@ def r05_9(ctx, rid: str = "R05.9") -> None:
             continue
         cfg = cfg_of(u)
         for n in cfg.nodes:
-            if n.kind != "await" or n.tag or f".{puller}(" not in norm(n.ast):
+            if n.kind != "await" or n.tag or refill_holder(n, puller) is None:
                 continue
             ctx.count("merge_refills")
             ok = False
@@ -367,9 +379,12 @@ def r05_4(ctx) -> None:
         if len(loops) != 1:
             continue
         loop = loops[0]
+        # what the locals hold when the loop is reached (a result flag initialised before it)
+        before = [oc for oc in Machine(cfg, _TruthOps(True)).run({}, stop=lambda n: n is loop) if oc.terminal is loop]
+        env0 = {k: v for k, v in (before[0].env.items() if len(before) == 1 else []) if not k.startswith("@")}
         for truthy in (False, True):
             ctx.count("short_circuit_cells")
-            results = Machine(cfg, _TruthOps(truthy)).run({}, start=loop, stop=lambda n: n is loop or n.kind == "pull")
+            results = Machine(cfg, _TruthOps(truthy)).run(dict(env0), start=loop, stop=lambda n: n is loop or n.kind == "pull")
             results = [oc for oc in results if len(oc.path) > 1 and oc.path[1].kind != "exit_cm"
                        and not (oc.path[0] is loop and oc.path[1] in [s for (lab, s) in loop.succ if lab == "stop"])]
             want = table[truthy]
@@ -388,7 +403,7 @@ def r05_4(ctx) -> None:
             ctx.check(bool(results), "R05.4", u, loop, f"[{'truthy' if truthy else 'falsy'}] loop body evaluated")
         ctx.count("short_circuit_cells")
         stop = [s for (lab, s) in loop.succ if lab == "stop"]
-        res = Machine(cfg, _TruthOps(True)).run({}, start=stop[0]) if stop else []
+        res = Machine(cfg, _TruthOps(True)).run(dict(env0), start=stop[0]) if stop else []
         vals = {oc.env.get("@return") for oc in res if oc.terminal.kind == "exit"}
         ctx.check(vals == {table["exhausted"]}, "R05.4", u, short, f"[exhausted] -> return {table['exhausted']}",
                   witness=str(vals))
